@@ -2,7 +2,9 @@
 
 case = {"bodies": [body...], "ops": [op...]}
   body (what trigger number i does when called) = {"acts": [["add", ph, id] | ["rm", ph, id]], "fin": "n" | ["d", j] | "r"}
-        ph in "b" "d" "a"; "n" returns None, ["d", j] returns Deferred j, "r" raises
+        ph in "b" "d" "a"; "n" returns None, ["d", j] returns Deferred j, "r" raises; ["ds", j] returns Deferred j ALREADY CALLED BACK
+        but with its chain suspended on an inner Deferred (succeed(None).addCallback(lambda _: inner_j)) — it delivers only
+        when ["fd", j, ok] fires the inner one (if the history fired j earlier, a plain fired Deferred is returned)
   op = ["add", ph, id] | ["rm", ph, id] | ["fire"] | ["fd", j, ok]
 
 Observation: per op "/" then events in order, each followed by ";":  b<i> d<i> a<i> trigger i called in the
@@ -47,11 +49,21 @@ def impl(case) -> str:
     out: list[str] = []
     defs = {}
     funcs = {}
-    current = []          # Deferreds returned by before-triggers of the firing in progress
 
-    def getd(j):
+    inner = {}            # j -> inner Deferred of an already-called, chain-suspended Deferred
+    resolved = set()
+    curj = []             # Deferred numbers returned by before-triggers of the firing in progress
+
+    def getd(j, kind="d"):
         if j not in defs:
-            defs[j] = Deferred()
+            if kind == "ds" and j not in resolved:
+                from twisted.internet.defer import succeed
+                inner[j] = Deferred()
+                d = succeed(None)
+                d.addCallback(lambda _, j=j: inner[j])
+                defs[j] = d
+            else:
+                defs[j] = Deferred()
         return defs[j]
 
     def func(ph, i):
@@ -69,9 +81,9 @@ def impl(case) -> str:
                     raise Boom()
                 if fin == "n":
                     return None
-                d = getd(fin[1])
+                d = getd(fin[1], fin[0])
                 if ph == "b":
-                    current.append(d)
+                    curj.append(fin[1])
                 return d
             funcs[(ph, i)] = f
         return funcs[(ph, i)]
@@ -90,16 +102,19 @@ def impl(case) -> str:
                 except ValueError:
                     evs.append("!V")
             elif k == "fire":
-                if not any(not d.called for d in current):
-                    current.clear()
+                if all(j in resolved for j in curj):
+                    curj.clear()
                     event.fireEvent()
             elif k == "fd":
-                d = getd(op[1])
-                if not d.called:
+                j = op[1]
+                d = getd(j)
+                if j not in resolved:
+                    resolved.add(j)
+                    target = inner.get(j, d)
                     if op[2]:
-                        d.callback(None)
+                        target.callback(None)
                     else:
-                        d.errback(TFailure(Boom()))
+                        target.errback(TFailure(Boom()))
                         d.addErrback(lambda f: None)
             else:
                 raise ValueError(op)
@@ -184,7 +199,8 @@ def oracle(case, obs):
                 fired.add(op[1])
             phase_rank = {"b": 0, "d": 1, "a": 2}
             last = -1
-            if k == "fire" and not suspended:
+            firing_now = k == "fire" and not suspended
+            if firing_now:
                 ran_before, in_before[0] = [], True
             for e in es:
                 if e[0] in "bda" and e[1:].isdigit():
@@ -195,6 +211,10 @@ def oracle(case, obs):
                     if ph == "b":
                         ran_before.append(i)
                     else:
+                        if firing_now and in_before[0] and reg["b"]:
+                            return Failure(case, where + f"{e} ran although before-trigger(s) {reg['b']} — registered before the "
+                                           "firing or by a before-trigger during the before phase — had not run",
+                                           "before-trigger-added-during-before-phase-not-run")
                         in_before[0] = False
                         waiting = [j for j in waiting if j not in fired]
                         if waiting:
@@ -219,6 +239,10 @@ def oracle(case, obs):
                         f = finof(i)
                         if f not in ("n", "r") and f[1] not in fired:
                             waiting.append(f[1])
+            if firing_now and in_before[0] and reg["b"]:
+                return Failure(case, where + f"the before phase ended with before-trigger(s) {reg['b']} not run (registered before "
+                               "the firing or by a before-trigger during the before phase)",
+                               "before-trigger-added-during-before-phase-not-run")
             waiting = [j for j in waiting if j not in fired]
             suspended = bool(waiting)
             if not suspended:
@@ -242,7 +266,7 @@ def _body(rng, i, n, nextj, reentrant):
     if r < 0.55:
         fin = "n"
     elif r < 0.8:
-        fin = ["d", rng.randrange(nextj)]
+        fin = [rng.choice(["d", "d", "ds"]), rng.randrange(nextj)]
     else:
         fin = "r"
     return {"acts": acts, "fin": fin}
@@ -285,6 +309,21 @@ def gen(rng, tier):
                 if pos == 3:
                     ops += mid
                 cases.append({"bodies": bodies, "ops": ops + [["fire"]]})
+    # before-triggers returning already-called Deferreds whose chain is suspended on an inner Deferred
+    for kinds in itertools.product(["d", "ds"], repeat=2):
+        for order in ((0, 1), (1, 0)):
+            for oks in ((True, True), (False, True), (True, False)):
+                b2 = [{"acts": [], "fin": [kinds[0], 0]}, {"acts": [], "fin": [kinds[1], 1]}, {"acts": [], "fin": "n"},
+                      {"acts": [], "fin": "n"}]
+                ops = [["add", "b", 0], ["add", "d", 2], ["add", "b", 1], ["add", "a", 3], ["fire"], ["add", "d", 3],
+                       ["fd", order[0], oks[0]], ["rm", "a", 3], ["fd", order[1], oks[1]], ["fire"]]
+                cases.append({"bodies": b2, "ops": ops})
+    # a before-trigger registers further before-triggers (one of them returning a Deferred) while the event fires
+    for kind in ("d", "ds"):
+        b3 = [{"acts": [["add", "b", 1], ["add", "b", 2]], "fin": "n"}, {"acts": [], "fin": [kind, 0]}, {"acts": [["add", "b", 3]], "fin": "n"},
+              {"acts": [], "fin": "n"}, {"acts": [], "fin": "n"}]
+        for tail in ([["fd", 0, True]], [["fd", 0, False], ["fire"]], []):
+            cases.append({"bodies": b3, "ops": [["add", "b", 0], ["add", "d", 4], ["add", "a", 4], ["fire"]] + tail})
     nrand = 400 if tier == "quick" else 8000
     for _ in range(nrand):
         cases.append(_random_case(rng, False))
@@ -344,13 +383,16 @@ SPEC = Spec(
     to_coq=to_coq,
     nontrivial=lambda c, o: sum(o.count(x) for x in ("b", "d", "a")) >= 3,
     histogram=lambda c, o: ("passive" if _passive(c) else "reentrant") + f" triggers<={len(c['bodies'])}",
-    rule="three Deferred-returning before-triggers fired in every order (6) x registrations/removals inserted at every "
+    rule="before-triggers returning plain or ALREADY-CALLED, chain-suspended Deferreds (succeed(None).addCallback(lambda _: inner)) "
+         "resolved later in either order with success or failure; before-triggers registering further before-triggers during the "
+         "firing; three Deferred-returning before-triggers fired in every order (6) x registrations/removals inserted at every "
          "point of the wait (24) plus a second fireEvent; random histories of 3-40 add/remove/fire/fire-Deferred calls over "
          "1-20 triggers that return None / a Deferred (shared ids, some already fired) / raise; the same with triggers that "
          "add and remove triggers of the event while it fires (adds only of higher-numbered triggers, so firing terminates); "
          "non-trivial = at least three trigger calls; distinct by (case, observation)",
     trusted=["hand-written model coq/C12/Model.v (tied by this correspondence run only)",
              "fireEvent() while a previous firing still waits for Deferreds is not exercised (harness and model skip it)",
-             "DeferredList fires when every listed Deferred has fired, success or failure (C04)"],
+             "DeferredList fires when every listed Deferred has delivered a result through its callback chain, success or failure "
+             "(C04); in the model a returned Deferred counts as fired when its chain delivers, not when `called` turns true"],
     assumptions=["trigger callables are distinct objects per (phase, number); handles are the documented 4-tuples"],
 )
